@@ -351,3 +351,8 @@ def replay(rp):
     print(dout.strip())
     print("trace kept at", tpath)
     return 1 if (rc != 0 or drc != 0) else 0
+
+
+def src_search(chk):
+    """a refinement theorem of the source-translator tie broke: wider search for a concrete failing schedule"""
+    return searcher(chk, OWN11, False, 400 if chk.tier == "quick" else 4000)()
